@@ -462,11 +462,18 @@ def jobs(tier):
             J.append(dict(harness=('c13', 'h_map_ops'), params=dict(N=N, op=op), timeout_s=300))
         for which in ('zero_state', 'one_state', 'ghz_state', 'maximally_mixed_state', 'identity_map'):
             J.append(dict(harness=('c13', 'h_constructors'), params=dict(N=N, which=which)))
-    progs = [[['gen', [0, 1]]], [['gen', [1]], ['gen', [0, 1]]], [['fmap', [0]], ['gen', [0, 1]]], [['gen', [0]], ['gen', [1]], ['gen', [0, 1]]]]
-    for prog in progs:
+    progs = [(2, [['gen', [0, 1]]]), (2, [['gen', [1]], ['gen', [0, 1]]]), (2, [['fmap', [0]], ['gen', [0, 1]]]), (2, [['gen', [0]], ['gen', [1]], ['gen', [0, 1]]]),
+             (3, [['gen', [0, 1]], ['gen', [1, 2]], ['gen', [0]], ['gen', [0]]]), (3, [['gen', [0]], ['gen', [1]], ['gen', [1]], ['gen', [0, 2]], ['gen', [2]]])]
+    for N, prog in progs:
         for config in ('plain', 'circuit'):
+            if N == 3 and config == 'circuit':
+                continue
             for direction in ('forward', 'backward'):
-                J.append(dict(harness=('c13', 'h_circuit_ops'), params=dict(N=2, prog=prog, config=config, direction=direction), timeout_s=300, max_paths=4000, cost=20))
+                J.append(dict(harness=('c13', 'h_circuit_ops'), params=dict(N=N, prog=prog, config=config, direction=direction), timeout_s=300, max_paths=4000, cost=20))
+    # the layer-packing lemma on the torch circuit classes (same structural obligations as C09 on pyclifford)
+    for N in (2, 3):
+        for n_g in (1, 2, 3, 4):
+            J.append(dict(harness=('circuits', 'h_packing_all'), params=dict(N=N, n_ops=n_g, pkg='torchclifford'), cost=3 * n_g))
     for N in (1, 2):
         for i0 in range(N):
             for causal in (False, True):
